@@ -160,6 +160,10 @@ type Check struct {
 	Finish func(tier string, cov map[string]interface{}, counters map[string]int64)
 	// WorkerInit runs once in each worker before the first unit.
 	WorkerInit func()
+	// SameFinding decides whether a replayed signature confirms a finding (default: equality).
+	SameFinding func(found, replayed string) bool
+	// MinRepro is the number of the 5 replays that must confirm a finding (default 5).
+	MinRepro int
 	// MaxWorkers caps the number of worker processes (0 = NumCPU).
 	MaxWorkers int
 	// Bounds describes the alphabet and size bounds of a tier for the evidence.
@@ -480,13 +484,17 @@ func parentMain(c *Check, tier string, jobs int) int {
 			for i := 0; i < 5; i++ {
 				got, _ := replayInSubprocess(c, f.Case)
 				for _, g := range strings.Split(got, "\x1f") {
-					if g == s {
+					if g == s || (c.SameFinding != nil && g != "" && c.SameFinding(s, g)) {
 						okN++
 						break
 					}
 				}
 			}
-			if okN != 5 {
+			need := 5
+			if c.MinRepro > 0 {
+				need = c.MinRepro
+			}
+			if okN < need {
 				fmt.Fprintf(os.Stderr, "INTERNAL: finding %s reproduced %d/5 times on replay; not reported as violation\ncase: %s\n", s, okN, f.Case)
 				exit = 2
 				continue
